@@ -222,6 +222,10 @@ let () =
                  let b x = if x then 1 else 0 in
                  Printf.printf "writable=%d render=%d wf=%d roundtrip=%d\n" (b (writable kf)) (b (chk_render kf)) (b (chk_wf kf)) (b (chk_roundtrip kf)))
         | ["freenull"] -> print_endline "rc=0"
+        (* harness-only actions that must not change any result: a change of the working directory after the reads of
+           the scenario, and a permission requirement every file of the harness satisfies *)
+        | ["chdir"; _] -> print_endline "rc=0"
+        | ["perms"] -> print_endline "rc=0"
         | ["tool"; cmd; arg; dl; cm] ->
             let f = (match cmd with "show" -> tool_show | "syntax" -> tool_syntax | _ -> tool_cat) in
             let r = f (!w).w_tree (dec arg) (dec dl) (dec cm) in
